@@ -95,6 +95,10 @@ M = [
   "            let min = usize::try_from(min.unwrap_or(0)).unwrap_or(usize::MAX);",
   "            let min = usize::try_from(min.unwrap_or(0)).unwrap_or(usize::MAX).min(1);",
   ["C11"], "a global placeholder's minimum above 1 is treated as 1"),
+ ("m21_recover_spins", "src/tag_iterator.rs",
+  "            self.internal_buffer_position += 1;\n            if self.peek_valid_tag_header().is_ok() {",
+  "            if self.buffer[self.internal_buffer_position] != 0x0b { self.internal_buffer_position += 1; }\n            if self.peek_valid_tag_header().is_ok() {",
+  ["C05"], "the recovery scan does not advance past a 0x0b byte: try_recover() spins forever without reading (caught by the watchdog as a hang)"),
 ]
 
 def main():
